@@ -112,6 +112,9 @@ def setCfg (c : Cfg) (kv : String) : Cfg :=
     | "maxActive" => { c with maxActive := n }
     | "allTypes" => { c with allTypes := i }
     | "bufMax" => { c with bufMax := i }
+    | "pTiming" => { c with pTiming := n }
+    | "pTraffic" => { c with pTraffic := n }
+    | "pInfo" => { c with pInfo := n }
     | "mmPid" => { c with mmPid := i }
     | "szInfo" => { c with szInfo := n }
     | "szFailed" => { c with szFailed := n }
